@@ -29,6 +29,10 @@ def evaluate(ctx, sc):
     run, case, argv = sc.run, sc.case, sc.argv
     viol = lambda kind, text, **facts: ctx.violation(kind, f"{text}; filter args={sc.fargs} paired={sc.paired} argv={argv}", case, facts=facts, klass=facts.get("fate"))
     if run.rc != 0:
+        if "Traceback" in run.err:
+            # the option set is valid (the generator only builds documented combinations): an internal error is not a refusal
+            viol("run-crashed", f"exit {run.rc} with a traceback: {run.err.strip().splitlines()[-1][:200]}")
+            return
         ctx.count("runs_failed")
         ctx.extra.setdefault("failed_example", (argv, run.err[-300:]))
         return
